@@ -574,8 +574,9 @@ _TABLES = ("node_face_connectivity", "edge_face_connectivity", "face_face_connec
            "edge_node_connectivity", "face_edge_connectivity", "face_node_connectivity", "n_nodes_per_face")
 
 
-def consumers(tier, seed):
-    """The incidence tables a grid reports are still the exact ones after operations that only READ them (differences and
+def consumers(tier, seed, tables=None, oracle_after=True):
+    """(tables: which variables of the grid are watched - default the incidence / edge tables; other properties reuse this stand-in
+    for their own variables.)  The incidence tables a grid reports are still the exact ones after operations that only READ them (differences and
     gradients over edges, topological aggregations, integration, subsetting, area / bounds construction, dual construction):
     every table is compared with a copy taken before the operation, and a table first built AFTER the operation is checked
     against the oracle."""
@@ -606,6 +607,15 @@ def consumers(tier, seed):
         yield "Grid.isel(n_face=...)", lambda: g.isel(n_face=list(range(0, nf, 2)))
         yield "Grid.isel(n_node=...)", lambda: g.isel(n_node=[0, nn - 1])
         yield "face_areas / bounds", lambda: (g.face_areas, g.bounds)
+        yield "remap.nearest_neighbor onto the grid's own face centers", lambda: nda.remap.nearest_neighbor(g, remap_to="face centers")
+        yield "remap.inverse_distance_weighted onto the grid's own nodes", lambda: fda.remap.inverse_distance_weighted(g, remap_to="nodes", k=min(3, nf))
+        yield "subset.bounding_circle / nearest_neighbor", lambda: (g.subset.bounding_circle((float(mesh["lon"][0]), float(mesh["lat"][0])), 25.0, element="nodes"),
+                                                                  g.subset.nearest_neighbor((float(mesh["lon"][0]), float(mesh["lat"][0])), k=1, element="face centers"))
+        yield "get_ball_tree('face centers').query", lambda: g.get_ball_tree("face centers").query([float(mesh["lon"][0]), float(mesh["lat"][0])], k=1)
+        yield "to_polycollection / to_linecollection", lambda: (g.to_polycollection(periodic_elements="exclude"), g.to_linecollection(periodic_elements="exclude"))
+        yield "to_geodataframe of a variable", lambda: fda.to_geodataframe(periodic_elements="ignore", engine="geopandas")
+        yield "to_xarray('ugrid')", lambda: g.to_xarray("ugrid")
+        yield "edge distances", lambda: (g.edge_node_distances, g.edge_face_distances)
         if mesh["closed"]:
             yield "get_dual()", lambda: g.get_dual()
 
@@ -623,7 +633,7 @@ def consumers(tier, seed):
                 before = {}
                 if prepared == "all_tables_built":
                     try:
-                        for t in _TABLES:
+                        for t in (tables or _TABLES):
                             before[t] = np.array(getattr(g, t).values, copy=True)
                     except Exception:  # noqa: BLE001   (construction failures are the main pass's business)
                         continue
@@ -644,10 +654,10 @@ def consumers(tier, seed):
                             continue
                         rec.check(now.shape == v.shape and np.array_equal(now, v), f"{t} unchanged by a read-only operation", sc,
                                   f"{t} reported by the grid changed after {opname}", inp, _small(now), _small(v))
-                else:
+                elif oracle_after:
                     # tables first built after the operation: against the oracle
                     check_grid(rec, "after_" + sc, "edges_then_edge_face", mesh, orc, grid=g)
-    bound = (f"{len(pick)} manifold catalogue meshes (open patches with boundary edges first, closed ones for the dual) x 12 read-only "
+    bound = (f"{len(pick)} manifold catalogue meshes (open patches with boundary edges first, closed ones for the dual) x 20 read-only "
              f"operations x grid prepared with all tables built (compared with copies taken before) or nothing built (tables first "
              f"built afterwards, checked against the oracle)")
     return result(rec.cases, len(distinct), rec.failures, bound, [{"mesh": m["name"]} for m in pick[:3]])
